@@ -7,6 +7,7 @@ package props
 import (
 	"bytes"
 	"fmt"
+	"runtime"
 	"sync"
 	"sync/atomic"
 
@@ -42,6 +43,8 @@ type c15Prog struct {
 	Threads [][]c15Op  `json:"threads,omitempty"` // concurrent mode (single store, get/has/set/del only)
 	// every key, value and bound handed to the stores carries this much spare (poisoned) capacity
 	Spare int `json:"spare,omitempty"`
+	// concurrent mode: the initial content sits in the parent (reads go through to it) instead of in the wrapper
+	ParentInit bool `json:"parent_init,omitempty"`
 }
 
 // ---------------------------------------------------------------------------------------------
@@ -107,6 +110,7 @@ func genC15(t *rapid.T, tier string) interface{} {
 	if p.Base == "conc" {
 		p.Base = "mem"
 		p.Init = [][]kvPair{genInit(t, "init", false)}
+		p.ParentInit = rapid.Bool().Draw(t, "parentinit")
 		nth := rapid.IntRange(2, 4).Draw(t, "threads")
 		for i := 0; i < nth; i++ {
 			ops := rapid.SliceOfN(rapid.Custom(func(t *rapid.T) c15Op {
@@ -116,8 +120,9 @@ func genC15(t *rapid.T, tier string) interface{} {
 				if o.Op == "set" {
 					o.V = genValHex(t, "v", false)
 				}
+				o.N = rapid.IntRange(0, 2).Draw(t, "yield") // scheduler yields before the call
 				return o
-			}), 1, 12).Draw(t, fmt.Sprintf("thread%d", i))
+			}), 1, 24).Draw(t, fmt.Sprintf("thread%d", i))
 			p.Threads = append(p.Threads, ops)
 		}
 		return p
@@ -614,8 +619,14 @@ func execC15Conc(p *c15Prog, c *Case) *Violation {
 	// initial content goes in through the wrapper, recorded as completed operations at time 0
 	var clock int64
 	var hist []porcupine.Operation
+	initial := flatKV{}
 	for _, kv := range p.Init[0] {
-		store.Set(unhex(kv.K), unhex(kv.V))
+		if p.ParentInit {
+			base.Set(unhex(kv.K), unhex(kv.V))
+			initial[string(unhex(kv.K))] = unhex(kv.V)
+		} else {
+			store.Set(unhex(kv.K), unhex(kv.V))
+		}
 		t := atomic.AddInt64(&clock, 1)
 		hist = append(hist, porcupine.Operation{ClientId: 0, Input: c15RegIn{"set", string(unhex(kv.K)), string(unhex(kv.V))}, Call: t, Output: c15RegOut{}, Return: atomic.AddInt64(&clock, 1)})
 	}
@@ -632,6 +643,9 @@ func execC15Conc(p *c15Prog, c *Case) *Violation {
 				k := unhex(o.K)
 				in := c15RegIn{op: o.Op, key: string(k)}
 				var out c15RegOut
+				for y := 0; y < o.N; y++ {
+					runtime.Gosched()
+				}
 				call := atomic.AddInt64(&clock, 1)
 				switch o.Op {
 				case "get":
@@ -668,8 +682,8 @@ func execC15Conc(p *c15Prog, c *Case) *Violation {
 		return violf("C15/concurrent/not-linearizable", "history of %d operations on one wrapper is not linearizable per key: %v", len(hist), fmtHist(hist))
 	}
 	// parent untouched before Write, and equal to the final view after it
-	if got := dumpStore(base); len(got) != 0 {
-		return violf("C15/parent-changed-before-write", "concurrent mode: parent holds %v before Write", got)
+	if got := dumpStore(base); !flatEqual(got, initial) {
+		return violf("C15/parent-changed-before-write", "concurrent mode: parent holds %v before Write, it was given %v", got, initial)
 	}
 	store.Write()
 	if got := dumpStore(base); !flatEqual(got, final) {
